@@ -226,3 +226,80 @@ def scripted_cryptominisat(order, over_n, log):
     import sweetpea._internal.core.generate.tools.cryptominisat as C
     with rebound(C, 'pycryptosat', make_scripted_cryptosat(order, over_n, log)), rebound(C, 'HAS_PYCRYPTOSAT', True):
         yield
+
+
+# ---------------------------------------------------------------------------------------------
+# SMGen: random() draws, the threading.Timer and the clock
+
+class ProbeFloat(float):
+    """Returned by the scripted random(): `int(random() * n)` reveals the arity n at the multiplication, and the
+    product is `choice + 0.5`, so int() yields exactly the scripted choice - exact branching without guessing n."""
+    def __new__(cls, script):
+        o = float.__new__(cls, 0.0)
+        o.script = script
+        return o
+
+    def __mul__(self, n):
+        return float(self.script.choose(int(n))) + 0.5
+    __rmul__ = __mul__
+
+
+class FakeTimer:
+    """Records start/cancel; never runs a real thread. The harness may fire the handler itself."""
+    instances = []
+
+    def __init__(self, interval, function, args=None, kwargs=None):
+        self.interval = interval
+        self.function = function
+        self.started = False
+        self.cancelled = False
+        FakeTimer.instances.append(self)
+
+    def start(self):
+        self.started = True
+
+    def cancel(self):
+        self.cancelled = True
+
+    def fire(self):
+        """What threading.Timer would do when the interval elapses: call function() in its own thread, where an
+        exception only prints a traceback."""
+        if self.started and not self.cancelled:
+            try:
+                self.function()
+            except Exception as e:
+                return e
+        return None
+
+
+@contextlib.contextmanager
+def smgen_seams(script=None, on_draw=None):
+    """Bind SMGen's nondeterminism. script None -> real random() (still no real timer thread)."""
+    import sweetpea._internal.sampling_strategy.scattered_map_core as SM
+
+    class FakeThreading:
+        Timer = FakeTimer
+    FakeTimer.instances = []
+    clock = [0.0]
+
+    def fake_time():
+        clock[0] += 0.001
+        return clock[0]
+
+    def scripted():
+        if on_draw is not None:
+            on_draw()
+        return ProbeFloat(script)
+    ctxs = [rebound(SM, 'threading', FakeThreading), rebound(SM, 'time', fake_time)]
+    if script is not None:
+        ctxs.append(rebound(SM, 'random', scripted))
+    with contextlib.ExitStack() as st:
+        for c in ctxs:
+            st.enter_context(c)
+        try:
+            yield FakeTimer.instances
+        finally:
+            try:
+                SM.reset_state()
+            except Exception:
+                pass
